@@ -335,17 +335,24 @@ def gen_stack(rng):
         m = len(labs)
         columns = {'kind': 'ih', 'labels': labs}
     dt = rng.choice(['int64', 'float64', 'str', 'int64'])
+    widths = rng.random() < 0.5      # columns of one kind but different widths: the stacked column must hold every cell unchanged
     cols = []
     for j in range(m):
+        dtj = dt
         if dt == 'int64':
-            v = [f'i:{100 * (i + 1) + j}' for i in range(n)]
+            if widths:
+                dtj = rng.choice(['int8', 'int16', 'int64'])
+            base = {'int8': 10, 'int16': 300, 'int64': 10 ** 10}[dtj] if widths else 100
+            v = [f'i:{base * (i + 1) + j}' for i in range(n)]
         elif dt == 'float64':
-            v = [f'f:{10 * (i + 1) + j + 0.5}' for i in range(n)]
+            if widths:
+                dtj = rng.choice(['float32', 'float64'])
+            v = [f'f:{10 * (i + 1) + j + (0.5 if dtj == "float32" or not widths else 0.1)}' for i in range(n)]
         else:
-            v = [tok(f'v{i}_{j}') for i in range(n)]
-        cols.append({'dt': dt, 'v': v})
+            v = [tok(f'v{i}_{j}' + ('x' * rng.randint(0, 6) if widths else '')) for i in range(n)]
+        cols.append({'dt': dtj, 'v': v})
     index = rng.choice([{'kind': 'auto', 'labels': [f'i:{i}' for i in range(n)]}, {'kind': 'flat', 'labels': [tok(f'r{i}') for i in range(n)]}])
-    spec = {'index': index, 'columns': columns, 'cols': cols, 'layout': gen.rand_layout(rng, [dt] * m), 'rows': n}
+    spec = {'index': index, 'columns': columns, 'cols': cols, 'layout': gen.rand_layout(rng, [c['dt'] for c in cols]), 'rows': n}
     return {'k': 'stack', 'spec': spec, 'fill': rng.choice(['nan', 'i:-1']), 'n': n * m}
 
 
